@@ -104,3 +104,79 @@ fn c04_ingest_valid_utf8_passed_on() {
     kani::cover!(!valid, "invalid input");
     kani::cover!(true, "end of harness reached");
 }
+
+// ------------------------------------------------------------------------------------------------
+// C04: "written to the output exactly as received, byte for byte, including colours it already
+// carries, in order and interleaved correctly with rendered sections". The real
+// `StateMachine::emit_line_unchanged` + `Painter::emit` + `format_raw_line` writing into a real
+// in-memory writer: whatever is pending in the painter's output buffer comes out first, then the
+// raw line unchanged, then one newline.
+// `format_raw_line` is `if config.hyperlinks && io::stdout().is_terminal() { <regex rewriting> }
+// else { Cow::from(line) }`. Neither the terminal query (reaches catch_unwind: kani-compiler ICE)
+// nor the regex can be compiled; the stub is the function's behaviour with hyperlinks off, and
+// fails the harness if it is ever called with hyperlinks on.
+fn stub_format_raw_line<'a>(line: &'a str, config: &Config) -> Cow<'a, str> {
+    assert!(!config.hyperlinks, "harness: hyperlinks are off");
+    Cow::from(line)
+}
+
+fn emit_unchanged<const B: usize, const L: usize>() {
+    let mut cfg_mem = MaybeUninit::<Config>::uninit();
+    let cp = cfg_mem.as_mut_ptr();
+    unsafe {
+        addr_of_mut!((*cp).hyperlinks).write(false);
+    }
+    let config: &Config = unsafe { &*cp };
+    let mut sink: Vec<u8> = Vec::with_capacity(B + L + 2);
+    let mut sm_mem = MaybeUninit::<StateMachine>::uninit();
+    let sp = sm_mem.as_mut_ptr();
+    let mut buf = [0u8; B];
+    let mut raw = [0u8; L];
+    for i in 0..B {
+        let c: u8 = kani::any();
+        kani::assume(c < 0x80);
+        buf[i] = c;
+    }
+    for i in 0..L {
+        let c: u8 = kani::any();
+        kani::assume(c < 0x80 && c != b'\n'); // any ASCII byte incl. ESC: colours already present
+        raw[i] = c;
+    }
+    unsafe {
+        addr_of_mut!((*sp).raw_line).write(String::from_utf8_unchecked(raw.to_vec()));
+        addr_of_mut!((*sp).line).write(String::new());
+        addr_of_mut!((*sp).config).write(config);
+        addr_of_mut!((*sp).painter.config).write(config);
+        addr_of_mut!((*sp).painter.writer).write(&mut sink);
+        addr_of_mut!((*sp).painter.output_buffer).write(String::from_utf8_unchecked(buf.to_vec()));
+    }
+    let sm: &mut StateMachine = unsafe { &mut *sp };
+    let r = sm.emit_line_unchanged();
+    assert!(matches!(r, Ok(true)), "the line counts as handled");
+    assert!(sm.painter.output_buffer.is_empty(), "the pending rendered output has been flushed");
+    assert!(sink.len() == B + L + 1, "nothing added, nothing dropped");
+    for i in 0..B {
+        assert!(sink[i] == buf[i], "pending rendered output comes first, unchanged");
+    }
+    for i in 0..L {
+        assert!(sink[B + i] == raw[i], "then the raw line, byte for byte");
+    }
+    assert!(sink[B + L] == b'\n', "then one newline");
+    kani::cover!(L > 0 && raw[0] == 0x1b, "line starting with an escape character");
+    kani::cover!(true, "end of harness reached");
+    std::mem::forget(sink);
+}
+
+#[kani::proof]
+#[kani::unwind(8)]
+#[kani::stub(format_raw_line, stub_format_raw_line)]
+fn c04_emit_unchanged_2_3() {
+    emit_unchanged::<2, 3>();
+}
+
+#[kani::proof]
+#[kani::unwind(8)]
+#[kani::stub(format_raw_line, stub_format_raw_line)]
+fn c04_emit_unchanged_0_4() {
+    emit_unchanged::<0, 4>();
+}
